@@ -24,6 +24,10 @@ Space.
          each sorted and reversed.
   sweep: EVERY (k, N) with k <= N <= 256 above the small range x three subsets: the last k blocks, the first k-1 primaries with the last
          secondary, a strided selection from the end.
+  sites: the REAL immutable producer and consumer of blocks, Encoder.set_encrypted_uploadable / start (in-memory share holders) / _encode_segment /
+         _gather_data and DownloadNode._parse_and_store_UEB / _decode_blocks: every (k, N) of the small range (and
+         10-of-30, 7-of-64, 25-of-100, 3-of-10) x segment sizes {k, 2k, 5k} x EVERY tail length 1..segment size, as a
+         one-segment file and behind a full segment, three k-subsets each.
 Oracle: b"".join(decode(blocks, ids))[:size] == data; a Failure or an unfired Deferred is a
 violation as well.
 """
@@ -230,16 +234,161 @@ def decode_and_compare(dec, blocks, sub, data, size):
     return None
 
 
+# ------------------------------------------------------------------ the real immutable call sites
+def site_roundtrip(k, N, segsize, size, seed):
+    """A whole (ciphertext) file through the REAL producer and consumer of immutable blocks:
+    immutable.encode.Encoder (set_encrypted_uploadable -> codec set-up; start() with in-memory share holders ->
+    _encode_segment -> _gather_data: piece cutting and tail padding -> put_block) and immutable.downloader.node.DownloadNode (_parse_and_store_UEB -> codec set-up,
+    _decode_blocks: tail truncation).  Returns [(sig, msg)] and the number of decodes."""
+    from zope.interface import implementer
+    from twisted.internet import defer
+    from allmydata import uri as _uri
+    from allmydata.interfaces import IEncryptedUploadable
+    from allmydata.immutable.encode import Encoder
+    from allmydata.immutable.downloader.node import DownloadNode
+    from allmydata.immutable.downloader.status import DownloadStatus
+    data = content(seed, "rand", size, b"site-%d-%d-%d" % (k, N, segsize))
+
+    @implementer(IEncryptedUploadable)
+    class EU(object):
+        pos = 0
+
+        def set_upload_status(self, st):
+            pass
+
+        def get_size(self):
+            return defer.succeed(size)
+
+        def get_all_encoding_parameters(self):
+            return defer.succeed((k, 1, N, segsize))
+
+        def get_storage_index(self):
+            return defer.succeed(b"\x01" * 16)
+
+        def read_encrypted(self, length, hash_only):
+            out = data[self.pos:self.pos + length]
+            self.pos += length
+            return defer.succeed([out])
+
+        def close(self):
+            pass
+    where = "k=%d N=%d segment size %d file size %d" % (k, N, segsize, size)
+    from allmydata.interfaces import IStorageBucketWriter
+
+    @implementer(IStorageBucketWriter)
+    class Bucket(object):
+        """in-memory share holder: keeps the blocks the encoder sends"""
+
+        def __init__(self):
+            self.blocks = {}
+
+        def put_header(self):
+            return defer.succeed(None)
+
+        def put_block(self, segnum, block):
+            self.blocks[segnum] = bytes(block)
+            return defer.succeed(None)
+
+        def put_crypttext_hashes(self, h):
+            return defer.succeed(None)
+
+        put_block_hashes = put_share_hashes = put_uri_extension = put_crypttext_hashes
+
+        def close(self):
+            return defer.succeed(None)
+
+        def abort(self):
+            return defer.succeed(None)
+
+        def get_servername(self):
+            return "mem"
+
+        def get_peerid(self):
+            return b"m" * 20
+    bad, n = [], 0
+    e = Encoder()
+    st, r = fired(e.set_encrypted_uploadable(EU()))
+    if st != "ok":
+        return [("site:encoder-setup:" + st, "%s: %r" % (where, r))], 0
+    nseg = e.num_segments
+    buckets = {i: Bucket() for i in range(N)}
+    e.set_shareholders(buckets, {i: set([b"m" * 20]) for i in range(N)})
+    try:
+        st, r = fired(e.start())
+    except Exception as ex:  # noqa
+        st, r = "raised:" + type(ex).__name__, ex
+    if st != "ok":
+        return [("site:encode:" + st, "%s: Encoder.start() with %d in-memory share holders failed: %r" % (where, N, r))], 0
+    vcap = _uri.CHKFileVerifierURI(b"\x01" * 16, b"\x02" * 32, k, N, size)
+    dn = DownloadNode(vcap, None, None, None, None, DownloadStatus(b"\x01" * 16, size))
+    try:
+        dn._parse_and_store_UEB(_uri.pack_extension({"segment_size": segsize, "crypttext_root_hash": b"\x03" * 32, "share_root_hash": b"\x04" * 32}))
+    except Exception as ex:  # noqa
+        return [("site:reader-setup:" + type(ex).__name__, "%s: %r" % (where, ex))], 0
+    subs = [list(range(k)), list(range(N - k, N)), [(j * 2 + 1) % N for j in range(k)] if N >= 2 * k else list(range(N - k, N))[::-1]]
+    for segnum in range(nseg):
+        if any(segnum not in buckets[i].blocks for i in range(N)):
+            bad.append(("site:block-not-produced", "%s: no block of segment %d was sent to share holder(s) %r" % (where, segnum, [i for i in range(N) if segnum not in buckets[i].blocks])))
+            continue
+        want = data[segnum * segsize:(segnum + 1) * segsize]
+        for sub in subs:
+            if len(set(sub)) != k:
+                continue
+            n += 1
+            try:
+                st, r2 = fired(dn._decode_blocks(segnum, {i: buckets[i].blocks[segnum] for i in sub}))
+            except Exception as ex:  # noqa
+                st, r2 = "raised:" + type(ex).__name__, ex
+            if st == "ok" and isinstance(r2, tuple):
+                r2 = r2[0]          # (segment, seconds spent decoding)
+            if st != "ok":
+                bad.append(("site:decode:" + st, "%s: DownloadNode._decode_blocks(%d, blocks %r) failed: %r" % (where, segnum, sub, r2)))
+            elif bytes(r2) != want:
+                bad.append(("site:wrong-bytes", "%s: segment %d from blocks %r decodes to %d bytes %r..., the segment is %d bytes %r..." % (where, segnum, sub, len(r2), bytes(r2)[:8], len(want), want[:8])))
+    return bad, n
+
+
+def site_jobs(tier):
+    out = []
+    nmax = 7 if tier == "quick" else 9
+    for N in range(1, nmax + 1):
+        for k in range(1, N + 1):
+            for mult in (1, 2, 5):
+                out.append({"mode": "site", "k": k, "N": N, "segsize": mult * k})
+    for (k, N) in ((10, 30), (7, 64), (25, 100), (3, 10)):
+        for mult in (1, 4):
+            out.append({"mode": "site", "k": k, "N": N, "segsize": mult * k})
+    return out
+
+
+def check_site(job, res):
+    k, N, segsize = job["k"], job["N"], job["segsize"]
+    # EVERY tail length 1..segsize, as a single-segment file and behind one full segment
+    for t in range(1, segsize + 1):
+        for size in (t, segsize + t):
+            bad, n = site_roundtrip(k, N, segsize, size, job["seed"])
+            res.count("evaluations", n)
+            res.count("nontrivial", n)
+            res.count("site_files")
+            for sig, msg in bad[:2]:
+                res.violation(sig, {"mode": "site", "k": k, "N": N, "segsize": segsize, "size": size, "seed": job["seed"]}, msg)
+
+
 def _chunk(chunk):
     res = common.Result()
     for job in chunk:
-        check_config(job, res)
+        if job.get("mode") == "site":
+            check_site(job, res)
+        else:
+            check_config(job, res)
         res.count("configs")
     return res
 
 
 def replay(case):
     from .. import boot
+    if case.get("mode") == "site":
+        return site_roundtrip(case["k"], case["N"], case["segsize"], case["size"], case.get("seed", boot.SEED))[0]
     res = common.Result()
     k, N, size, style = case["k"], case["N"], case["size"], case["style"]
     seed = case.get("seed", boot.SEED)
@@ -306,8 +455,10 @@ def jobs_for(tier, seed):
 
 def run(tier, seed):
     jobs, nmax, allperm = jobs_for(tier, seed)
+    sj = [dict(j, seed=seed) for j in site_jobs(tier)]
+    jobs = jobs + sj
     # heavy jobs first, interleaved
-    jobs.sort(key=lambda j: -(j["k"] ** 2 * (1 if j["mode"] == "small" else 50)))
+    jobs.sort(key=lambda j: -(j["k"] ** 2 * (1 if j["mode"] == "small" else 50)) if j["mode"] != "site" else -(j["segsize"] ** 2 * 40))
     nchunks = min(len(jobs), common.NWORKERS * 8)
     jobs = [j for r in range(nchunks) for j in jobs[r::nchunks]]
     res = common.pmap(_chunk, jobs)
@@ -316,11 +467,12 @@ def run(tier, seed):
         "distinct_nontrivial": res.counts.get("nontrivial", 0),
         "exhaustive": True,
         "configurations": res.counts.get("configs", 0),
+        "site_files": res.counts.get("site_files", 0),
         "distinct_secondary_block_counts": sorted(x[1] for x in res.distinct),
         "rule": ("every (k,N) with 1<=k<=N<=%d x sizes {k,2k,5k,257k} + tails {1,k+1,5k-1} in immutable ('enc') and mutable ('pub') padding style x 2 contents x every k-subset "
                  "(all orders for k<=%d, else sorted/reversed/rotated) + blocks from encode(desired_share_ids=subset); N in %s with k in %s: first-k, last-k, every cyclic window, "
                  "evens, odds, strides 3/5/7, primaries with exactly one replaced by each secondary (sorted and in-place); each distinct (config, ordered id list) is evaluated once; "
-                 "plus a sweep over every (k,N), k<=N<=256 with three subsets each; "
+                 "plus a sweep over every (k,N), k<=N<=256 with three subsets each; plus files through the real Encoder and DownloadNode call sites (every tail length, count in site_files); "
                  "non-trivial = the id list contains at least one secondary block (id >= k), i.e. decoding needs a matrix inversion")
                 % (nmax, allperm, sorted(LARGE_K), {str(n): LARGE_K[n] for n in sorted(LARGE_K)}),
     }
